@@ -46,6 +46,8 @@ SKELETONS = {
                         "k:FOREIGN k:KEY ( b ) k:REFERENCES p ( y ) k:ON k:UPDATE CASCADE ) ;")),
     "table_generated": ("", sk("k:CREATE k:TABLE t1 ( a int , b int k:GENERATED k:ALWAYS k:AS ( a * 2 ) k:STORED , c int k:NOT k:NULL ) ;")),
     "table_mysql_glued": ("", sk("k:CREATE k:TABLE t1 ( a int ) COMMENT='orders' ENGINE=InnoDB COLLATE='utf8_bin' ;")),
+    "table_mysql_glued2": ("", sk("k:CREATE k:TABLE t1 ( a int ) ENGINE=InnoDB k:COMMENT l:'tbl' ;")),
+    "table_if": ("", sk("k:CREATE k:TABLE k:IF k:NOT k:EXISTS s1 . t1 ( a int , b int ) ;")),
     "table_items": ("", sk("k:CREATE k:TABLE t1 ( a int k:UNIQUE , b int k:NULL k:CHECK ( b > 1 ) , k:PRIMARY k:KEY ( a ) , k:FOREIGN k:KEY ( b ) k:REFERENCES o ( x ) ) ;")),
     "table_mysql": ("", sk("k:CREATE k:TABLE t1 ( a int k:COMMENT l:'c~1' ) k:ENGINE = InnoDB k:DEFAULT c:CHARSET = utf8 ;")),
     "table_hql": ("", sk("k:CREATE k:EXTERNAL k:TABLE k:IF k:NOT k:EXISTS t1 ( a int , b string ) k:PARTITIONED k:BY ( p date ) k:STORED k:AS PARQUET k:LOCATION l:'s3://x/y' ;")),
